@@ -138,6 +138,25 @@ func c18Doc(c *explore.Ctx, s *explore.SubStats, d kitDoc, thorough bool) {
 	if got := run([]validator.Rule{}...); len(got) > 0 && !panicked {
 		bad("compose/empty-list rule="+got[0].Rule, "validating with an explicit empty rule list reports errors", "", multiset(got))
 	}
+	// rules that share a name (two of the caller's own rules left unnamed, or named alike, or named like a standard
+	// rule next to it): a list is a list, every member runs and its errors carry the name it was given
+	{
+		mk := func(name, tag string) validator.Rule {
+			return validator.Rule{Name: name, RuleFunc: func(observers *validator.Events, addError validator.AddErrFunc) {
+				observers.OnOperation(func(walker *validator.Walker, op *ast.OperationDefinition) {
+					addError(validator.Message("%s saw an operation", tag), validator.At(op.Position))
+				})
+			}}
+		}
+		for _, names := range [][2]string{{"", ""}, {"Mine", "Mine"}, {"ScalarLeafs", "ScalarLeafs"}} {
+			a, b := mk(names[0], "first"), mk(names[1], "second")
+			got := run(a, rules.ScalarLeafsRule, b)
+			want := append(append(run(a), run(rules.ScalarLeafsRule)...), run(b)...)
+			if multiset(got) != multiset(want) && !panicked {
+				bad(fmt.Sprintf("compose/same-name name=%q", names[0]), fmt.Sprintf("two rules of the caller named %q and %q around ScalarLeafs: the list does not report the union of what its members report alone", names[0], names[1]), multiset(want), multiset(got))
+			}
+		}
+	}
 	// reverse order
 	rev := make([]validator.Rule, len(c18Standard))
 	for i, r := range c18Standard {
@@ -245,6 +264,19 @@ func runC18(c *explore.Ctx) {
 	}
 	registrySub(c)
 	// documents with many errors: what one rule reports must not depend on how much the others report
+	s = c.Sub("cross-parent-literals", fmt.Sprintf("%d documents against schema S3 (two interfaces that declare one field name with one argument name at Float / Int, ID / String and input objects of Float / Int fields) in which one literal is given to both — × the same rule sets, pairs and leave-one-out included", len(c18CrossDocs)),
+		"as above", "documents with at least one error")
+	if s != nil {
+		t0 := time.Now()
+		for i, d := range c18CrossDocs {
+			if i%c.NShards != c.Shard {
+				continue
+			}
+			s.States++
+			c18Doc(c, s, kitDoc{Schema: 2, Profile: "cross-parent-literals", Doc: d}, true)
+		}
+		s.WallS = time.Since(t0).Seconds()
+	}
 	s = c.Sub("large", "documents of 30, 60, 120 and 250 selections with two or three errors each (unknown argument, missing required argument, wrong value, unknown field, misplaced directive) × the same rule sets (with pairs and leave-one-out)", "as above", "every document")
 	if s != nil && c.Shard == 0 {
 		t0 := time.Now()
@@ -257,6 +289,21 @@ func runC18(c *explore.Ctx) {
 }
 
 // c18LargeDocs: documents whose error lists run into the hundreds.
+// c18CrossDocs (schema S3): one literal given to two fields that answer under one name on parents that may apply
+// together and declare the argument at different types — what one rule makes of the literal must not reach another
+var c18CrossDocs = []string{
+	`{ any { ... on Priced { cost(x: 1) } ... on Billed { cost(x: 1) } } }`,
+	`{ any { ... on Billed { cost(x: 1) } ... on Priced { cost(x: 1) } } }`,
+	`{ any { ... on Priced { cost(f: {v: 1, w: [1, 2]}) } ... on Billed { cost(f: {v: 1, w: [1, 2]}) } } }`,
+	`{ any { ... on Priced { cost(f: {w: 1}) } ... on Billed { cost(f: {w: 1}) } } }`,
+	`{ any { ... on Priced { label(s: 1) } ... on Billed { label(s: 1) } } }`,
+	`{ any { ... on Priced { label(s: "1") } ... on Billed { label(s: "1") } } }`,
+	`{ any { ...P ...B } } fragment P on Priced { c: cost(x: 2) } fragment B on Billed { c: cost(x: 2) }`,
+	`query ($v: Int = 1) { any { ... on Priced { cost(x: $v) } ... on Billed { cost(x: $v) } } }`,
+	`{ any { ... on Priced { cost(x: 1.0) } ... on Billed { cost(x: 1) } } }`,
+	`{ thing { cost(x: 1) ... on Priced { cost(x: 1) } } }`,
+}
+
 func c18LargeDocs() []string {
 	var out []string
 	for _, n := range []int{30, 60, 120, 250} {
